@@ -59,9 +59,20 @@ def run(t):
                    "sequence) and whose later stages project with constant indices / keys / "
                    "attribute names, x binder schemes distinct/same/reuse; non-trivial = has a "
                    "package and a nested operator lambda; distinct by source text")
-    t.bounds.append(f"{len(qs)} chains")
+    # random deep queries whose packages (tuple / list / dict built in an earlier stage or inside
+    # one lambda) are only taken apart with constant projections and never reach the result
+    import gen
+    rq = [q for q in gen.random_queries(t.rng, 300 if t.tier == "quick" else 12000,
+                                        3 if t.tier == "quick" else 5)
+          if any(m in q for m in ("'a':", ")[0]", ")[1]", "][0]", "][1]", "'k'"))]
+    t.bounds.append(f"{len(qs)} chains + {len(rq)} random queries with packaging (seeded)")
     for s, sch in qs:
         check_one(t, s, sch)
+    for s in rq:
+        if t.out_of_time():
+            t.notes.append("time budget reached")
+            break
+        check_one(t, s, "random")
 
 
 def replay(payload, t):
